@@ -8,6 +8,7 @@ use crate::gen::env::dummy_env;
 use crate::gen::prog::*;
 use crate::gen::values::*;
 use crate::model::bits::unpack;
+use crate::model::layout::RTy;
 use crate::model::wire;
 use serde_json::json;
 use simplicity::jet::Elements;
@@ -95,6 +96,46 @@ pub fn compare(cx: &mut Case, prog: &[u8], wit: &[u8], origin: &str) -> CaseResu
     }
 }
 
+/// `comp (comp (pair witness const_T) eq_T) unit`: one witness node whose type T is pinned
+/// completely by the combinator-only equality `eq_T : T x T -> 2` (every sum and product of T is
+/// taken apart by a case / take / drop).  T is either a product of words of an exact total width
+/// 1..1400 (all residues modulo the SHA-256 block and padding boundaries of the witness hash) or
+/// a drawn type up to 1300 bits with sums and padding.
+fn gen_pinned_witness_program(cx: &mut Case) -> super::c01::Generated {
+    cx.label("program: one witness of a pinned type");
+    let mut src = cx.src.clone();
+    let ty = if src.bool() {
+        let w = src.range(1, 1400);
+        let mut parts = vec![];
+        for k in 0..11 {
+            if (w >> k) & 1 == 1 {
+                parts.push(RTy::word(k));
+            }
+        }
+        let r = src.below(parts.len());
+        parts.rotate_left(r);
+        let mut it = parts.into_iter().rev();
+        let last = it.next().unwrap();
+        it.fold(last, |acc, p| RTy::prod(p, acc))
+    } else {
+        let wmax = [40usize, 300, 1300][src.below(3)];
+        crate::gen::types::gen_ty(&mut src, wmax, 6)
+    };
+    let cval = gen_val(&mut src, &ty);
+    let mut b = super::c06::B { nodes: vec![], eq_memo: vec![] };
+    let w = b.push(Ir::Witness);
+    let c = b.constant(&mut src, &ty, &cval);
+    let p = b.push(Ir::Pair(w, c));
+    let e = b.eq(&ty);
+    let t = b.push(Ir::Comp(p, e));
+    let u = b.push(Ir::Unit);
+    let root = b.push(Ir::Comp(t, u));
+    cx.src = src;
+    cx.label_if(ty.width % 512 >= 432 && ty.width % 512 <= 455, "witness type width near a SHA-256 padding boundary");
+    cx.label_if(ty.has_padding(), "witness type has padding");
+    super::c01::Generated { prog: Prog { nodes: b.nodes, root, family: Family::Elements }, family: Family::Elements }
+}
+
 pub fn case(cx: &mut Case) -> CaseResult {
     let mode = cx.src.weighted(&[4, 5, 2]);
     if mode == 2 {
@@ -114,7 +155,8 @@ pub fn case(cx: &mut Case) -> CaseResult {
         return compare(cx, prog, wit, "raw");
     }
     // a valid Elements program
-    let mut g = gen_unit_program(cx, false, false);
+    let pinned = cx.src.chance(45);
+    let mut g = if pinned { gen_pinned_witness_program(cx) } else { gen_unit_program(cx, false, false) };
     if g.family != Family::Elements {
         // regenerate in the Elements family: jets of the Core family have other codes
         for n in g.prog.nodes.iter_mut() {
